@@ -105,9 +105,15 @@ def pScopeTail : Nat → List Char → Res (List SScope)
       | none => .fail
     | _ => .ok [] s
 
+/-- `trusting` is the keyword only as a word of its own: not when a name character follows
+    (`trusting_level`), nor, after blanks, a `(` (`trusting(1)`, a predicate) -/
+def keywordEnds (r : List Char) : Bool :=
+  (match r with | c :: _ => !isNameChar c | [] => true) &&
+  (match space0 r with | '(' :: _ => false | _ => true)
+
 /-- `scopes` -/
 def pScopes (fuel : Nat) (s : List Char) : Res (List SScope) :=
-  match tag ['t', 'r', 'u', 's', 't', 'i', 'n', 'g'] (space0 s) with
+  match (tag ['t', 'r', 'u', 's', 't', 'i', 'n', 'g'] (space0 s)).filter keywordEnds with
   | none => .ok [] s
   | some r =>
     match pScope (space0 r) with
